@@ -239,6 +239,18 @@ def _run_match(ctx, spec, rng):
             rows = m.reshape(1, -1) if m.ndim == 1 else m
             ok = all(sorted(int(v) for v in row) == labels for row in rows) and len({frozenset(frozenset(int(v) for v in row[i:i + 2]) for i in range(0, n, 2)) for row in rows}) == ref.double_factorial_odd(n)
             ctx.check("perfect_matchings:exact-once", bool(ok), sig=(n, "labels"), nt=n > 2, mech="perfect_matchings:arbitrary-labels", detail={"n": n})
+    if n % 2 == 0 and 4 <= n <= 8:  # labels in descending and in shuffled order (list and array)
+        for order_name, lab in (("descending", list(range(n - 1, -1, -1))), ("shuffled", [int(v_) for v_ in rng.permutation(n)]), ("shuffled-offset", [int(v_) + 3 for v_ in rng.permutation(n)])):
+            for arg in (list(lab), np.array(lab)):
+                res = _call(ctx, perfect_matchings, arg)
+                if res is None:
+                    continue
+                m = np.asarray(res)
+                rows = m.reshape(1, -1) if m.ndim == 1 else m
+                good = all(sorted(int(v_) for v_ in row) == sorted(lab) for row in rows)
+                distinct = len({frozenset(frozenset(int(v_) for v_ in row[i_:i_ + 2]) for i_ in range(0, n, 2)) for row in rows})
+                ctx.check("perfect_matchings:exact-once", bool(good and len(rows) == distinct == ref.double_factorial_odd(n)), sig=(n, order_name, isinstance(arg, list)), nt=True,
+                          mech="perfect_matchings:labels-not-in-ascending-order", detail={"n": n, "labels": lab, "rows": len(rows), "distinct": distinct, "rows_are_partitions": bool(good)})
     if n % 2 == 0 and 2 <= n <= 8:  # labels that are not integers: the rows must still partition exactly these labels
         flabels = [0.25 + 0.5 * i for i in range(n)]
         for arg in (list(flabels), np.array(flabels)):
